@@ -112,13 +112,13 @@ def run(prop, tier, replay=None):
             keep = set(idx[:2500])
             inputs = [x for k, x in enumerate(inputs) if k in keep or x["ab"]["kept"] in (98, 99, 100, 101)]
         recs = [{"id": "cap-%d" % k, "prop": "C09", "status": "Unconstrained", "text": render_abstract(x["ab"]), "ab": x["ab"], "model": x["model"]} for k, x in enumerate(inputs)]
-        for k, s in enumerate(nasty_strings(rnd, 11000 if tier == "quick" else 66000)):
+        for k, s in enumerate(nasty_strings(rnd, 11000 if tier == "quick" else 300000)):
             recs.append({"id": "str-%d" % k, "prop": "C09", "status": "Unconstrained", "text": s.replace("\x00", " ")})
         # well-formed lines are inputs too: a class-covering sample of every TLC-enumerated corpus (the encoder paths run instrumented)
         nval = 0
         for cname in VALID_CORPORA:
             crecs = [json.loads(l) for l in open(A.corpus(cname))]
-            for r in A.sample(crecs, 450 if tier == "quick" else 6000, A.SEED + 9):
+            for r in A.sample(crecs, 450 if tier == "quick" else 25000, A.SEED + 9):
                 txt = A.toktext(r["toks"]) if "toks" in r else A.render(r["ast"])
                 recs.append({"id": "val-%d" % nval, "prop": "C09", "status": "Unconstrained", "text": txt})
                 nval += 1
